@@ -479,10 +479,14 @@ PLANS = {
          'RemoveBadIndex', 'ReplaceAbsentMember', 'ReplaceNoParent', 'MoveFromAbsentMember', 'MoveFromNoParent',
          'CopyFromAbsentMember', 'CopyOverLimit', 'MoveFromRoot', 'Copy', 'AddEnsure', 'RemoveSkippedMember']),
     'C12': P(
-        [AP('d1', [1, 2, 7, 10, 11], [1, 8, 9, 10, 11], V_ALL, [1, 2, 9], 1, respell=True, extra_opt='wsonly=1'),
+        [AP('d1L', [1, 2, 7, 10, 11], [1, 9], V_ALL, [1, 2, 9], 1, respell=True, extra_opt='wsonly=1', legacy=True),
+         AP('d2L', [10], [1, 9], [1, 5, 8], [1, 5], 2, kinds=['copy', 'add', 'remove'], respell=True, extra_opt='wsonly=1', legacy=True),
+         AP('d1', [1, 2, 7, 10, 11], [1, 8, 9, 10, 11], V_ALL, [1, 2, 9], 1, respell=True, extra_opt='wsonly=1'),
          AP('d2', [10, 6], [1, 8, 9, 10], [1, 5, 8], [1, 5], 2, kinds=['copy', 'add', 'remove', 'replace'], respell=True,
             extra_opt='wsonly=1')],
-        [AP('d1', S_ALL, [1, 8, 9, 10, 11], V_ALL, [1, 2, 9], 1, respell=True, extra_opt='wsonly=1'),
+        [AP('d1L', S_ALL, [1, 9], V_ALL, [1, 2, 9], 1, respell=True, extra_opt='wsonly=1', legacy=True),
+         AP('d2L', [10, 6], [1, 9], [1, 5, 8], [1, 5], 2, kinds=['copy', 'add', 'remove', 'replace'], respell=True, extra_opt='wsonly=1', legacy=True, timeout=9000),
+         AP('d1', S_ALL, [1, 8, 9, 10, 11], V_ALL, [1, 2, 9], 1, respell=True, extra_opt='wsonly=1'),
          AP('d2', [1, 2, 7, 10, 6], [1, 8, 9, 10], [1, 5, 8], [1, 5], 2, kinds=['copy', 'add', 'remove', 'replace'], respell=True,
             extra_opt='wsonly=1', timeout=9000),
          AP('d3', [10], [1, 8, 9], [5], [5], 3, kinds=['copy'], timeout=9000)],
